@@ -144,6 +144,11 @@ Wod(nm, np) == W0(nm, np, 1, 0) @@ [od |-> TRUE]
 c02od_Configs == { D(3, 0, <<Wod("od", 1), W0("w2", 1, 1, 0)>>), D(3, 0, <<[W0("w2", 1, 0, 0) EXCEPT !.prio = 1], Wod("od", 2)>>) }
 c02od_Requests == { Rq("stop", "w2", TRUE), Rq("stop", "od", FALSE), Rq("start", "od", FALSE), Rq("status", "w2", FALSE) }
 
+\* ---- random deep exploration (tlc -simulate): everything at once, budgets far beyond what is exhaustible
+deep_Configs == c04_Configs \cup c18_Configs \cup c08_Configs \cup c10_Configs \cup c05_Configs \cup c03_Configs \cup c02a_Configs
+deep_Requests == c01_Requests \cup c02_Requests \cup c03_Requests \cup c04_Requests \cup c05_Requests \cup c09_Requests
+                 \cup c10_Requests \cup c14_Requests \cup c18_Requests \cup c08_Requests
+
 st_one == {256}
 st_exit == {0, 256, 65280}
 st_sig  == {15, 9, 11}
